@@ -855,9 +855,16 @@ func (x *Exec) specBinary(c *SpecCtx, e *Expr) (*Val, error) {
 		} else if a.K == VScalar && b.K == VScalar {
 			p, q := x.numUnify(a.T, b.T)
 			if p.S != q.S {
-				return nil, fmt.Errorf("comparison of %s with %s in %q", p.S, q.S, e.String())
+				if strings.HasPrefix(e.Args[0].Name, "vararg") || strings.HasPrefix(e.Args[1].Name, "vararg") {
+					// variadic arguments have a different type at each call site a clause applies to: values of
+					// different types are never equal
+					eq = tFalse
+				} else {
+					return nil, fmt.Errorf("comparison of %s with %s in %q", p.S, q.S, e.String())
+				}
+			} else {
+				eq = tEq(p, q)
 			}
-			eq = tEq(p, q)
 		} else if a.K == VFloat && b.K == VScalar {
 			p, q := x.numUnify(a.F[1].T, b.T)
 			eq = tAnd(tNot(a.F[0].T), tEq(p, q))
